@@ -328,6 +328,8 @@ def payload(name, o):
         return np.zeros((), a.dtype)
     if name == "empty":
         return np.zeros((0,), a.dtype)
+    if name == "wrong-dtype-other-values":       # neither the element type nor the numbers of the real result
+        return wrong_dtype(payload("other-values", o)) if isinstance(o, np.ndarray) and a.dtype.kind in "fiub" else wrong_dtype(a)
     if name == "other-values":
         if a.dtype.kind in "fiu":
             return np.asarray(a + 1).astype(a.dtype).reshape(a.shape)
@@ -383,7 +385,7 @@ def payload(name, o):
 
 PAYLOADS = [
     "none", "pyfloat", "pyint", "pybool", "pystr", "pybytes", "pycomplex", "bigint", "npscalar", "npscalar-f64",
-    "wrong-dtype", "float64", "alias-dtype", "longdouble", "wrong-rank", "wrong-dim", "zero-d", "empty",
+    "wrong-dtype", "wrong-dtype-other-values", "float64", "alias-dtype", "longdouble", "wrong-rank", "wrong-dim", "zero-d", "empty",
     "list2", "list1", "list1-real", "list0", "nested11", "nested2", "list-none", "list-scalars", "list-wrong-dtype",
     "list-wrong-shape", "list-mixed", "tuple2", "ragged-tuple", "dict", "object", "set", "objarr-str", "objarr-other",
     "bytes-array", "str-array", "datetime", "array-for-seq",
